@@ -121,9 +121,9 @@ var (
 	months      = []string{"Jan", "Feb", "Mar", "Apr", "May", "Jun", "Jul", "Aug", "Sep", "Oct", "Nov", "Dec", "jan", "FEB", "dEC", "Foo", "Ju\x00"}
 	yearsQuick  = []string{"0000", "0001", "1900", "1970", "2000", "2023", "2024", "2100", "9999", "20a4"}
 	yearsThor   = []string{"0000", "0001", "0004", "0099", "0100", "0400", "0999", "1000", "1582", "1600", "1700", "1752", "1800", "1899", "1900", "1901", "1904", "1969", "1970", "1971", "1972", "1999", "2000", "2001", "2004", "2019", "2020", "2021", "2022", "2023", "2024", "2025", "2026", "2027", "2028", "2037", "2038", "2039", "2096", "2100", "2104", "2200", "2262", "2263", "2400", "3000", "4000", "5000", "8000", "9996", "9998", "9999", "20a4", " 999", "+999", "-001", "2 24", "١١", "0x7e", "1e03"}
-	hoursThor   = []string{"00", "01", "09", "10", "19", "20", "23", "24", "25", "29", "30", "99", "1a", " 1", "-1"}
-	minutesThor = []string{"00", "01", "59", "60", "99", "5a", "-1"}
-	secondsThor = []string{"00", "01", "59", "60", "61", "99", "a0", "-1"}
+	hoursThor   = []string{"00", "09", "10", "19", "20", "23", "24", "25", "30", "99", "1a", " 1"}
+	minutesThor = []string{"00", "59", "60", "99", "5a", "-1"}
+	secondsThor = []string{"00", "59", "60", "61", "99", "a0", "-1"}
 )
 
 func timesList(thorough bool) [][3]string {
@@ -438,7 +438,7 @@ func TestC31(t *testing.T) {
 	lap("date_enumeration")
 
 	// --- B: every byte value at every position of valid dates
-	nBase := r.N(150, 5000)
+	nBase := r.N(150, 3000)
 	blocks(r, secDatePert, nBase*29*256, 29*256, func(a *agg, bi, lo, hi int) {
 		rnd := r.Rand("pert", bi)
 		tt := time.Unix(rnd.Int63n(253402300800+62135596800)-62135596800, 0).UTC()
@@ -457,7 +457,7 @@ func TestC31(t *testing.T) {
 	lap("date_byte_perturbation")
 
 	// --- C: random dates
-	nRand := r.N(1_000_000, 50_000_000)
+	nRand := r.N(1_000_000, 30_000_000)
 	blocks(r, secDateRand, nRand, 8192, func(a *agg, bi, lo, hi int) {
 		rnd := r.Rand("daterand", bi)
 		buf := make([]byte, 0, 40)
@@ -495,7 +495,7 @@ const (
 func roundTrip(r *mon.Run) {
 	const perYear = 8
 	nStruct := 9999 * perYear
-	nRand := r.N(1_000_000, 50_000_000)
+	nRand := r.N(1_000_000, 30_000_000)
 	total := nStruct + nRand
 	zones := []*time.Location{time.UTC, time.FixedZone("east", 14*3600), time.FixedZone("west", -12*3600), time.FixedZone("odd", 5*3600+45*60+17)}
 	blocks(r, secDateRT, total, 8192, func(a *agg, bi, lo, hi int) {
@@ -740,7 +740,7 @@ func ipv4(r *mon.Run) {
 		}
 	}
 	st = append(st, "", ".", "..", "...", "....", "1", "1.2", "1.2.3", "1.2.3.4.5", "1.2.3.4.", ".1.2.3.4", "1..2.3.4", "1.2.3.4 ", " 1.2.3.4", "1,2,3,4", "1.2.3.4\n", "1.2.3.4\x00", "::1", "1.2.3.4:80", "０.0.0.0")
-	nRand := r.N(600_000, 30_000_000)
+	nRand := r.N(600_000, 20_000_000)
 	total := len(st) + nRand
 	blocks(r, secIPv4, total, 8192, func(a *agg, bi, lo, hi int) {
 		rnd := r.Rand("ipv4", bi)
@@ -982,7 +982,7 @@ func ipv6(r *mon.Run) {
 			}
 		}
 	}
-	nRand := r.N(400_000, 20_000_000)
+	nRand := r.N(400_000, 10_000_000)
 	total := len(st) + nRand
 	blocks(r, secIPv6, total, 4096, func(a *agg, bi, lo, hi int) {
 		rnd := r.Rand("ipv6", bi)
